@@ -12,6 +12,8 @@ import (
 	"testing"
 	"time"
 
+	"github.com/jig/lisp"
+	"github.com/jig/lisp/debuggertypes"
 	"github.com/jig/lisp/lib/call"
 	"github.com/jig/lisp/types"
 	"pgregory.net/rapid"
@@ -24,11 +26,12 @@ import (
 // Case: k mutually recursive functions; function i's body is
 // (if (< n 1) (depth!) CTX_i[(f_{i+1} (- n 1))]) with CTX_i a composition of tail contexts.
 type Case struct {
-	Bodies []string // text of each function body with CALL standing for the tail call
-	Calls  []string // how the tail call itself is written: plain | thread | macro
-	Uses   []string
-	Thunks []bool // function i takes no parameter; the counter lives in an atom
-	Long   bool   // also run 10^6 iterations in a child process under a small maximum stack
+	Bodies       []string // text of each function body with CALL standing for the tail call
+	Calls        []string // how the tail call itself is written: plain | thread | macro
+	Uses         []string
+	Thunks       []bool // function i takes no parameter; the counter lives in an atom
+	AfterStepper []int  `json:",omitempty"` // commands a debugger stepper answered in a session that ended BEFORE the loop runs
+	Long         bool   // also run 10^6 iterations in a child process under a small maximum stack
 }
 
 type ctxGen struct {
@@ -94,6 +97,12 @@ func genCase(t *rapid.T) Case {
 	}
 	for u := range g.uses {
 		c.Uses = append(c.Uses, u)
+	}
+	if g.pick("afterstepper", 5) == 0 {
+		// a debugging session that is over (stepper detached) before the loops run; no reset hook in between
+		for i, n := 0, 1+g.pick("nsteps", 6); i < n; i++ {
+			c.AfterStepper = append(c.AfterStepper, g.pick("cmd", 4))
+		}
 	}
 	c.Long = os.Getenv("VERIF_TIER") == "thorough" && g.pick("long", 60) == 0
 	return c
@@ -183,6 +192,18 @@ func check(c Case) pbt.Verdict {
 	v := pbt.Verdict{Key: prog}
 	for _, u := range c.Uses {
 		v.Labels = append(v.Labels, "ctx:"+u)
+	}
+	if len(c.AfterStepper) > 0 {
+		i := 0
+		lisp.Stepper = func(ast types.MalType, ns types.EnvType) debuggertypes.Command {
+			cmd := c.AfterStepper[i%len(c.AfterStepper)]
+			i++
+			return debuggertypes.Command(cmd)
+		}
+		_ = box.ReadEval(context.Background(), "(do (+ 1 2) (let (q 1) (list q (- q 1))) (if true (+ 2 3) 0))", e)
+		lisp.Stepper = nil // detached; the stepping flags are deliberately NOT reset here
+		defer lisp.VerifResetStepper()
+		v.Labels = append(v.Labels, "after-a-detached-stepper-session")
 	}
 	var depths []int
 	for _, n := range []int{1, 2, 10, 11, 150} {
